@@ -361,7 +361,7 @@ def run(ctx):
     ctx.rule("table/reader-writer-agree", "every token type in the LRRP tables is handled by both read_document and write_part, or rejected by both")
     ctx.rule("table/attribute-defined", "attribute ids referenced by element tokens exist in ATTRIBUTE_TOKENS")
     ctx.rule("shape/capture-roundtrip", "per captured document shape, all content octets symbolic: serialise -> parse restores every token id / value / attribute, and re-serialising gives the same bytes")
-    ctx.rule("shape/inline-constant-table", "the same for the document id WITH constant table: empty and 3-octet (symbolic) inline tables")
+    ctx.rule("shape/inline-constant-table", "the same for the document id WITH constant table: empty, 1-octet and 3-octet (symbolic) inline tables")
     ctx.rule("buffer/several-documents", "2 and 3 documents in one buffer parse into exactly those documents (announced lengths consumed exactly)")
     ctx.rule("api/token-roundtrip", "a document holding one token obtained through get_token (every implemented token, every attribute choice, symbolic content, boundary numbers) serialises to bytes that parse back into the same token id, value and attributes")
     ctx.rule("api/long-body", "documents whose body needs a two-octet length (128 octets and more) keep their boundaries")
@@ -385,7 +385,7 @@ def run(ctx):
             roundtrip_docs(ctx, repo, mb, build, f"capture {raw[:8].hex()}… {len(raw)} octets", "shape/capture-roundtrip", fb.loc)
         # the sibling document id that carries a constant table (id - 1): empty / 3-octet inline table
         if raw[0] % 2 == 1 and raw[0] < 0x16:
-            for tbl in (b"", b"\x01\x02\x03"):
+            for tbl in (b"", b"\x05", b"\x01\x02\x03"):
                 body = bytes([len(tbl)]) + tbl + raw[2:]
                 if len(body) >= 128:
                     continue
